@@ -915,6 +915,7 @@ impl<const N: u32> PxE2<{ N }> {
 
                 let shift = 32 - N;
                 if ((u_z >> shift) != (0x_7FFF_FFFF >> shift))
+                    && (N < 32)
                     && (((0x_8000_0000_u32 >> N) & u_z) != 0)
                     && ((((0x_8000_0000_u32 >> (N - 1)) & u_z) != 0)
                         || (((0x_7FFF_FFFF_u32 >> N) & u_z) != 0))
@@ -982,6 +983,7 @@ impl<const N: u32> PxE2<{ N }> {
 
             let shift = 32 - N;
             if ((u_z >> shift) != (0x_7FFF_FFFF >> shift))
+                && (N < 32)
                 && ((((0x_8000_0000_u32 >> N) & u_z) != 0)
                     && ((((0x_8000_0000_u32 >> (N - 1)) & u_z) != 0)
                         || (((0x_7FFF_FFFF_u32 >> N) & u_z) != 0)))
@@ -1214,6 +1216,7 @@ impl<const N: u32> PxE1<{ N }> {
             let shift = 32 - N;
 
             if ((u_z >> shift) != (0x_7FFF_FFFF >> shift))
+                && (N < 32)
                 && (((0x_8000_0000_u32 >> N) & u_z) != 0)
                 && ((((0x_8000_0000_u32 >> (N - 1)) & u_z) != 0)
                     || (((0x_7FFF_FFFF_u32 >> N) & u_z) != 0))
